@@ -292,7 +292,8 @@ def minsum_rule(p, res):
     n = d
     rows = [(1 << d) - 1]
     for variant, enc in make_encoders(n, rows):
-        for a, b, nz in ((1.0, 0.0, False), (0.8, 0.0, False), (1.0, 0.2, False), (1.0, 0.0, True)):
+        # normalized=True is documented to override scaling_factor and offset with (0.75, 0.2), whatever else is passed
+        for a, b, nz in ((1.0, 0.0, False), (0.8, 0.0, False), (1.0, 0.2, False), (0.875, 0.3, False), (1.0, 0.0, True), (0.875, 0.0, True), (1.0, 0.5, True), (0.5, 0.1, True)):
             cfg = f"deg={d},{variant},a={a},b={b},norm={int(nz)}"
             try:
                 dec = D.MinSumLDPCDecoder(enc, bp_iters=1, scaling_factor=a, offset=b, normalized=nz)
